@@ -128,6 +128,8 @@ def run(ctx):
     # every view of this property is laid over array_length() atoms and bonds.get_atom_count() atoms: both agree with the arrays
     from .C01 import length_rules
     length_rules(ctx, "R6")
+    from .C01 import annotation_value_rules
+    annotation_value_rules(ctx, "R6")
     res, cha, seg, mol = ctx.src(RES), ctx.src(CHA), ctx.src(SEG), ctx.src(MOL)
 
     # ---------------- R1 start definitions (whole function, composed symbolically) ----------------
